@@ -47,7 +47,7 @@ type c15In struct {
 
 func genC15(seed int64, tier string, emit func(run.Case)) {
 	r := gen.New(seed)
-	n := tierN(tier, 1200, 30000)
+	n := tierN(tier, 1200, 15000)
 	for i := 0; i < n; i++ {
 		q := r.Sub(i)
 		emit(run.MkCase(fmt.Sprintf("c%07d", i), "boards", c15In{Prog: gen.BoardProgram(q, tier == "thorough" && q.P(0.5))}))
